@@ -21,7 +21,7 @@ RULE = ("built-in modules (lnk, elf, macho, pe, dotnet, dex, crx: the smallest t
         "supplied through set_module_output; synthetic test_proto2 / test_proto3 messages built by reflection (every field: required always, optional with probability 0.3-0.8, "
         "repeated of length 0/1/2/3/6, maps with 0/1/2/4 entries incl. extreme int keys and empty/escaped string keys; values i32/i64/u32/u64 MIN/MAX/2^63, empty/long/non-ASCII/NUL "
         "strings and bytes, nested messages, enums). Per message up to 220 conditions over every field path: defined p, p == value, p == another value, absent fields, array "
-        "elements at 0/last/len/len+7, len(), for any / for all, map keys present/missing, for any k,v. One evaluation = one rule verdict. Non-trivial: every message; distinct by content.")
+        "elements at 0/last/len/len+7, len(), for any / for all, map keys present/missing, for any k,v, repeated message fields of absent messages (own cases). Cases run in child-process batches. One evaluation = one rule verdict. Non-trivial: every message; distinct by content.")
 
 MAX_SAMPLE = 300_000
 MODULES = ["lnk", "elf", "macho", "pe", "dotnet", "dex", "crx"]
@@ -67,7 +67,7 @@ def prepare_samples(drv):
             if 0 < len(data) <= MAX_SAMPLE:
                 with open(dst, "wb") as f: f.write(data)
         if m == "pe":
-            # a file that is not a PE: the pe module's output has no rich_signature (replay of lookup_correct_refuted)
+            # a file that is not a PE: the pe module's output has no rich_signature (witness of the repaired template-array defect, absent_message_array_empty)
             want.add("not_a_pe.bin")
             with open(os.path.join(d, "not_a_pe.bin"), "wb") as f: f.write(b"not a pe file")
         for old in os.listdir(d):
@@ -77,9 +77,8 @@ def prepare_samples(drv):
 
 def classify(case):
     label = str(case.get("label", "?")).split(" ")[0]
-    if label.startswith("template-array:"):
-        # cases that hold only queries on a repeated message field of an absent message
-        return "C12:template-array-in-absent-message"
+    if case.get("crashed"):
+        return "C12:crash:" + label
     return "C12:" + label
 
 
@@ -95,12 +94,12 @@ MANIFEST = {
     "level_text": ("Machine-checked proof (Coq) over a model of how yara-x turns a module's protobuf output into the structures that conditions read: for every descriptor, "
                    "message and field path, walking the index path computed at compile time (from the descriptor, with the generated enum/function fields) through the "
                    "structure built at scan time from the message yields exactly the value stored in the message under that field name (lookup_correct); indexes do not "
-                   "depend on the generated enum fields; absent proto2 fields are undefined (proto3: documented defaults); array length/order and map entries equal the "
+                   "depend on the generated enum fields; absent proto2 fields are undefined (proto3: documented defaults), arrays of absent messages are empty; array length/order and map entries equal the "
                    "message's. The model is compared with the implementation on thousands of generated conditions over synthetic test_proto2/test_proto3 outputs and over "
                    "the outputs of built-in modules on sample files, computed by the module and supplied through set_module_output."),
     "level_note": ("The model is hand-written (no translator): a change in structure.rs/emit.rs/wasm lookup code is caught by the verdict comparison, not by a proof. "
-                   "Evaluation of the comparison operators themselves belongs to C02. One wart is proved and documented: a repeated message field of an ABSENT nested message "
-                   "has length 1 (template element) in the code."),
+                   "Evaluation of the comparison operators themselves belongs to C02. The compile-time template item of repeated message fields (generate_compile_time_fields) "
+                   "is modelled; the input of the repaired defect (pe.rich_signature.tools on a non-PE file) stays in the corpus."),
     "technique": "Coq proof over a hand-written executable model + differential verdict comparison (vm_compute)",
     "design_ref": "DESIGN.md section 4, C12",
 }
